@@ -8,7 +8,15 @@ pub struct HashMap<K, V> {
 }
 
 fn empty_arr<T>() -> [Option<T>; CAP] {
-    core::array::from_fn(|_| None)
+    // explicit literal: `core::array::from_fn` / `[const { None }; CAP]` make Kani 0.68 report a
+    // spurious "pointer outside object bounds" for some niche-encoded element types
+    // (e.g. Option<(ParameterId, ParameterValue)>)
+    #[cfg(feature = "cap4")]
+    return [None, None, None, None];
+    #[cfg(all(feature = "cap6", not(feature = "cap4")))]
+    return [None, None, None, None, None, None];
+    #[cfg(not(any(feature = "cap4", feature = "cap6")))]
+    return [None, None, None, None, None, None, None, None];
 }
 
 impl<K: PartialEq, V> HashMap<K, V> {
@@ -296,5 +304,41 @@ impl<'a, T: PartialEq> IntoIterator for &'a HashSet<T> {
     type IntoIter = SetIter<'a, T>;
     fn into_iter(self) -> Self::IntoIter {
         self.iter()
+    }
+}
+
+// ---- appended for qrecovery::journal::rcvd (State::AckSent(.., HashSet<u64>), packet_include_ack) ----
+impl<T: PartialEq> HashSet<T> {
+    /// Keeps the elements for which `f` is true (relative order of the kept ones preserved).
+    pub fn retain<F: FnMut(&T) -> bool>(&mut self, mut f: F) {
+        let len = self.m.len;
+        let mut kept: [Option<(T, ())>; CAP] = empty_arr();
+        let mut w = 0;
+        let mut r = 0;
+        while r < CAP {
+            if r < len {
+                let kv = self.m.items[r].take().unwrap();
+                if f(&kv.0) {
+                    let mut j = 0;
+                    let mut kv = Some(kv);
+                    while j < CAP {
+                        if j == w {
+                            kept[j] = kv.take();
+                        }
+                        j += 1;
+                    }
+                    w += 1;
+                }
+            }
+            r += 1;
+        }
+        self.m.items = kept;
+        self.m.len = w;
+    }
+}
+
+impl<T: PartialEq, const N: usize> From<[T; N]> for HashSet<T> {
+    fn from(a: [T; N]) -> Self {
+        a.into_iter().collect()
     }
 }
